@@ -5,6 +5,7 @@ import (
 	"context"
 	"errors"
 	"fmt"
+	"github.com/muktihari/fit/profile/factory"
 	"io"
 	"os"
 	"time"
@@ -121,7 +122,8 @@ func allEntryPoints(b []byte, r *rng) []string {
 		}
 	}
 	optSets := [][]decoder.Option{nil, {decoder.WithIgnoreChecksum()}, {decoder.WithNoComponentExpansion()},
-		{decoder.WithBroadcastOnly()}, {decoder.WithReadBufferSize(r.pick(0, 1, 765, 766, 1024))}, {decoder.WithBroadcastMesgCopy(), decoder.WithIgnoreChecksum()}}
+		{decoder.WithBroadcastOnly()}, {decoder.WithReadBufferSize(r.pick(0, 1, 765, 766, 1024))}, {decoder.WithBroadcastMesgCopy(), decoder.WithIgnoreChecksum()},
+		{decoder.WithFactory(factory.StandardFactory())}, {decoder.WithFactory(factory.New()), decoder.WithReadBufferSize(r.pick(0, 766, 5000))}, {decoder.WithLogWriter(io.Discard)}}
 	opts := optSets[r.intn(len(optSets))]
 	newReader := func() io.Reader {
 		if r.chance(1, 4) {
